@@ -43,6 +43,16 @@ theorem chunked_wire_decodes (m : Nat) (hm : 1 ≤ m) (parts : List Bytes) (hlen
     decodeChunked m (chunkedWire parts) = .ok (parts.flatten, crlf) :=
   chunked_decode_encode m hm parts crlf hlen
 
+/-- "the chunked encoding decodes to them for any chunk split" — also for a decoder that was NOT written from
+    fasthttp: the RFC 9112 reference decoder (Spec/Rfc9112.lean) reads fasthttp's chunked body (end chunk, no trailer
+    fields, final CRLF) as exactly the produced bytes and stops exactly behind it. No size hypothesis is needed. -/
+theorem chunked_decodes_by_rfc_reference (parts : List Bytes) (rest : Bytes) :
+    Spec.Rfc.readChunks ((chunkedWire parts ++ rest).length + 1) (chunkedWire parts ++ rest) [] =
+      .ok parts.flatten rest := by
+  have := rfc_readChunks_write parts ((chunkedWire parts ++ rest).length + 1) rest []
+    (by simp only [chunkedWire, List.length_append]; omega)
+  simpa [chunkedWire] using this
+
 /-- the chunked reader terminates: with the fuel `decodeChunked` gives it, it never runs out (for ANY input) -/
 theorem decode_never_out_of_fuel (m : Nat) (s : Bytes) : decodeChunked m s ≠ .error .fuel :=
   readBodyChunked_fuel m 0 (s.length + 1) s [] (by omega)
